@@ -635,32 +635,34 @@ Lemma advance_ok s dt :
   let s1 := mkSt (data s) (listeners s) (tmap s) (timers s) (now s + dt) in
   exists s' o, fire_all true (length (timers s)) s1 = (s', o) /\ Inv s' /\
     speq (abs s') (spec_step (abs s) (OAdvance dt)) /\ listeners s' = listeners s /\
-    (forall k, unchanged_at s1 s' k \/ expired_at s1 s' o k).
+    (forall k, if expired (abs s) (now s + dt) k then expired_at s1 s' o k else unchanged_at s1 s' k).
 Proof.
   intros HI Hdt s1.
   assert (I1 : Inv s1) by (destruct HI as (H1 & H2 & H3); split; [|split]; assumption).
   destruct (fire_all_ok (length (timers s)) s1 I1) as (s' & o & F & I' & N' & L' & K' & Q').
-  exists s', o. split; [exact F|]. split; [exact I'|]. split; [|split; [exact L'|exact K']].
+  exists s', o. split; [exact F|]. split; [exact I'|].
   assert (Hq : next_due (timers s') (now s') = None).
   { apply Q'. cbn [timers s1]. apply armed_count_le. }
   assert (Hld : forall k, live_deadline s1 k = live_deadline s k) by (intros k; reflexivity).
+  assert (Hchar : forall k, if expired (abs s) (now s + dt) k then expired_at s1 s' o k else unchanged_at s1 s' k).
+  { intros k. unfold expired. cbn [abs sdl].
+    destruct (K' k) as [[U1 U2]|(d & v & X1 & X2 & X3 & X4 & X5 & X6)].
+    - destruct (live_deadline s k) as [d|] eqn:Hl; [|split; assumption].
+      destruct (Z.leb_spec d (now s + dt)) as [Hle|Hgt]; [|split; assumption]. exfalso.
+      rewrite Hld, Hl in U2. destruct (live_deadline_some _ _ _ U2) as (i & t & _ & B & C & D).
+      pose proof (next_due_none _ _ Hq i t B C) as H. rewrite N' in H. cbn [now s1] in H. lia.
+    - pose proof X1 as X1'. rewrite Hld in X1'. rewrite X1'. cbn [now s1] in X2.
+      destruct (Z.leb_spec d (now s + dt)); [|lia]. exists d, v. repeat split; assumption. }
+  split; [|split; [exact L'|exact Hchar]].
   cbn [spec_step]. destruct (Z.ltb_spec dt 0) as [|_]; [lia|].
   split; [|split]; cbn [abs sdata sdl snow]; [| |exact N'].
   - intros k. rewrite (dget_filter (fun x => negb (expired (abs s) (now s + dt) x))).
-    unfold expired. cbn [abs sdl]. destruct (K' k) as [[U1 U2]|(d & v & X1 & X2 & X3 & X4 & X5 & _)].
-    + rewrite U1. cbn [data s1]. destruct (live_deadline s k) as [d|] eqn:Hl; [|reflexivity].
-      destruct (Z.leb_spec d (now s + dt)) as [Hle|Hgt]; [|reflexivity]. exfalso.
-      rewrite Hld, Hl in U2. destruct (live_deadline_some _ _ _ U2) as (i & t & _ & B & C & D).
-      pose proof (next_due_none _ _ Hq i t B C). rewrite N' in H. cbn [now s1] in H. lia.
-    + rewrite X4. rewrite Hld in X1. rewrite X1. cbn [now s1] in X2.
-      destruct (Z.leb_spec d (now s + dt)); [reflexivity|lia].
-  - intros k. unfold expired. cbn [abs sdl]. destruct (K' k) as [[U1 U2]|(d & v & X1 & X2 & X3 & X4 & X5 & _)].
-    + rewrite U2, Hld. destruct (live_deadline s k) as [d|] eqn:Hl; [|reflexivity].
-      destruct (Z.leb_spec d (now s + dt)) as [Hle|Hgt]; [|reflexivity]. exfalso.
-      rewrite Hld, Hl in U2. destruct (live_deadline_some _ _ _ U2) as (i & t & _ & B & C & D).
-      pose proof (next_due_none _ _ Hq i t B C). rewrite N' in H. cbn [now s1] in H. lia.
-    + rewrite X5. rewrite Hld in X1. rewrite X1. cbn [now s1] in X2.
-      destruct (Z.leb_spec d (now s + dt)); [reflexivity|lia].
+    specialize (Hchar k). destruct (expired (abs s) (now s + dt) k); cbn [negb].
+    + destruct Hchar as (d & v & _ & _ & _ & X4 & _). exact X4.
+    + destruct Hchar as [U1 _]. exact U1.
+  - intros k. specialize (Hchar k). destruct (expired (abs s) (now s + dt) k).
+    + destruct Hchar as (d & v & _ & _ & _ & _ & X5 & _). exact X5.
+    + destruct Hchar as [_ U2]. rewrite U2. apply Hld.
 Qed.
 
 Lemma inv_listeners s ls : Inv s -> NoDup ls ->
@@ -737,3 +739,352 @@ Qed.
 
 Lemma abs_init : speq (abs init) spec_init.
 Proof. split; [|split]; cbn; auto. Qed.
+
+(* ================================= replicas (both variants of the model) *)
+
+(* what a step sends is, for every listener, exactly the change of the store *)
+Definition sends_ok (s s' : state) (o : outs) : Prop :=
+  listeners s' = listeners s /\
+  forall l, (In l (listeners s) -> apply_all (data s) (msgs_for l o) = data s') /\
+            (~ In l (listeners s) -> msgs_for l o = []).
+
+Lemma sends_nil s s' : data s' = data s -> listeners s' = listeners s -> sends_ok s s' [].
+Proof. intros Hd Hl. split; [exact Hl|]. intros l. split; intros _; [cbn; now rewrite Hd|reflexivity]. Qed.
+
+Lemma sends_notify s s' m :
+  NoDup (listeners s) -> listeners s' = listeners s -> data s' = apply_msg (data s) m ->
+  sends_ok s s' (notify s m).
+Proof.
+  intros Hn Hl Hd. split; [exact Hl|]. intros l. unfold notify. split; intros Hin.
+  - rewrite msgs_for_map_in by assumption. cbn. now rewrite Hd.
+  - now apply msgs_for_map_notin.
+Qed.
+
+Lemma sends_trans s s1 s2 o1 o2 : sends_ok s s1 o1 -> sends_ok s1 s2 o2 -> sends_ok s s2 (o1 ++ o2).
+Proof.
+  intros (L1 & A) (L2 & B). split; [congruence|]. intros l. rewrite msgs_for_app. split; intros Hin.
+  - rewrite apply_all_app. rewrite (proj1 (A l) Hin). apply (proj1 (B l)). now rewrite L1.
+  - rewrite (proj2 (A l) Hin). apply (proj2 (B l)). now rewrite L1.
+Qed.
+
+Lemma set_ttl_same f u s k v ttl :
+  data (set_ttl f u s k v ttl) = data s /\ listeners (set_ttl f u s k v ttl) = listeners s.
+Proof. unfold set_ttl. destruct f, (ttl <=? 0), u; cbn; auto. Qed.
+
+Lemma do_set_sends f s k v prev ttl : NoDup (listeners s) ->
+  sends_ok s (fst (do_set f s k v prev ttl)) (snd (snd (do_set f s k v prev ttl))).
+Proof.
+  intros Hn. unfold do_set. cbn [fst snd].
+  destruct (set_ttl_same f false (mkSt (dset (data s) k v) (listeners s) (tmap s) (timers s) (now s)) k v ttl) as [A B].
+  apply sends_notify; [exact Hn|rewrite B; reflexivity|rewrite A; reflexivity].
+Qed.
+Lemma do_remove_sends s k p : NoDup (listeners s) ->
+  sends_ok s (fst (do_remove s k p)) (snd (snd (do_remove s k p))).
+Proof. intros Hn. unfold do_remove. cbn [fst snd]. now apply sends_notify. Qed.
+Lemma remove_sends s k : NoDup (listeners s) -> sends_ok s (fst (remove s k)) (snd (snd (remove s k))).
+Proof.
+  intros Hn. unfold remove. destruct (dget (data s) k); [now apply do_remove_sends|now apply sends_nil].
+Qed.
+Lemma compare_and_remove_sends s k old : NoDup (listeners s) ->
+  sends_ok s (fst (compare_and_remove s k old)) (snd (snd (compare_and_remove s k old))).
+Proof.
+  intros Hn. unfold compare_and_remove. destruct (dget (data s) k) as [p|]; [|now apply sends_nil].
+  destruct old as [o|]; [|now apply sends_nil].
+  destruct (json_eqb p o); [now apply do_remove_sends|now apply sends_nil].
+Qed.
+
+Lemma fire_sends f s i t : NoDup (listeners s) ->
+  sends_ok s (fst (fire f s i t)) (snd (fire f s i t)).
+Proof.
+  intros Hn. unfold fire.
+  set (s1 := mkSt (data s) (listeners s) (tmap s) (set_state i Fired (timers s)) (now s)).
+  assert (H1 : sends_ok s1 (fst (callback f s1 i t)) (snd (snd (callback f s1 i t)))).
+  { unfold callback. destruct (f && negb _); [now apply sends_nil|]. now apply compare_and_remove_sends. }
+  destruct (callback f s1 i t) as [s2 [r o]]. cbn [fst snd] in *.
+  destruct H1 as (L & A). split; [exact L|exact A].
+Qed.
+
+Lemma fire_all_sends f fuel : forall s, NoDup (listeners s) ->
+  sends_ok s (fst (fire_all f fuel s)) (snd (fire_all f fuel s)).
+Proof.
+  induction fuel as [|n IH]; intros s Hn; cbn [fire_all]; [now apply sends_nil|].
+  destruct (next_due (timers s) (now s)) as [[i d]|]; [|now apply sends_nil].
+  destruct (nth_error (timers s) i) as [t|]; [|now apply sends_nil].
+  pose proof (fire_sends f s i t Hn) as H1. destruct (fire f s i t) as [s1 o1]. cbn [fst snd] in H1.
+  assert (Hn1 : NoDup (listeners s1)) by (destruct H1 as [L _]; now rewrite L).
+  pose proof (IH s1 Hn1) as H2. destruct (fire_all f n s1) as [s2 o2]. cbn [fst snd] in *.
+  eapply sends_trans; eauto.
+Qed.
+
+(* every operation other than a join or a leave *)
+Definition is_listener_op (o : op) : bool := match o with OAddL _ | ORemoveL _ => true | _ => false end.
+
+Lemma step_sends f s o : NoDup (listeners s) -> is_listener_op o = false ->
+  sends_ok s (fst (step f s o)) (snd (snd (step f s o))).
+Proof.
+  intros Hn Ho. destruct o as [k [v|] ttl|k old [v|] ttl|k|k old|l|l|dt|i]; try discriminate; cbn [step].
+  - destruct (dget (data s) k) as [p|]; [|now apply do_set_sends].
+    destruct (json_eqb p v); [|now apply do_set_sends]. cbn [fst snd].
+    destruct (set_ttl_same f true s k v ttl). now apply sends_nil.
+  - now apply remove_sends.
+  - destruct old as [o|], (dget (data s) k) as [p|]; try (now apply sends_nil); try (now apply do_set_sends).
+    destruct (json_eqb p o); [now apply do_set_sends|now apply sends_nil].
+  - now apply compare_and_remove_sends.
+  - now apply remove_sends.
+  - now apply compare_and_remove_sends.
+  - destruct (dt <? 0); [now apply sends_nil|].
+    set (s1 := mkSt (data s) (listeners s) (tmap s) (timers s) (now s + dt)).
+    pose proof (fire_all_sends f (length (timers s)) s1 Hn) as H. destruct (fire_all f (length (timers s)) s1) as [s2 o].
+    cbn [fst snd] in *. exact H.
+  - destruct (nth_error (timers s) i) as [t|]; [|now apply sends_nil].
+    destruct (t_state t); try now apply sends_nil.
+    pose proof (fire_sends f s i t Hn) as H. destruct (fire f s i t) as [s2 o]. cbn [fst snd] in *. exact H.
+Qed.
+
+Lemma step_nodup f s o : NoDup (listeners s) -> NoDup (listeners (fst (step f s o))).
+Proof.
+  intros Hn. destruct (is_listener_op o) eqn:Ho.
+  - destruct o; try discriminate; cbn [step fst listeners]; auto using ladd_nodup, lremove_nodup.
+  - destruct (step_sends f s o Hn Ho) as [L _]. now rewrite L.
+Qed.
+
+(* the replica of a listener: joined exactly when the store lists it, and then equal to the store *)
+Definition RepInv (l : lid) (s : state) (r : option dmap) : Prop :=
+  match r with
+  | Some x => In l (listeners s) /\ x = data s
+  | None => ~ In l (listeners s)
+  end.
+
+Lemma step_replica f l s r o :
+  NoDup (listeners s) -> RepInv l s r ->
+  RepInv l (fst (step f s o))
+    (option_map (fun x => apply_all x (msgs_for l (sort_outs (snd (snd (step f s o)))))) (join_leave l o r)).
+Proof.
+  intros Hn Hr. rewrite msgs_for_sort. destruct (is_listener_op o) eqn:Ho.
+  - destruct o as [| | | |l'|l'| |]; try discriminate; cbn [step fst snd join_leave].
+    + (* join *)
+      destruct (N.eqb_spec l' l) as [->|Hne]; cbn [option_map RepInv listeners data].
+      * split; [apply ladd_in; now left|].
+        destruct (data s) as [|e d]; [reflexivity|]. rewrite msgs_for_cons. cbn [fst snd]. rewrite N.eqb_refl. reflexivity.
+      * destruct r as [x|]; cbn [option_map RepInv listeners data] in *.
+        -- match goal with |- context [msgs_for l ?t] => assert (Hm : msgs_for l t = []) end.
+           { destruct (data s); [reflexivity|]. rewrite msgs_for_cons. cbn [fst].
+             destruct (N.eqb_spec l l'); [congruence|reflexivity]. }
+           rewrite Hm. destruct Hr as [A B]. split; [apply ladd_in; now right|exact B].
+        -- rewrite ladd_in. intros [E|E]; [congruence|contradiction].
+    + (* leave *)
+      destruct (N.eqb_spec l' l) as [->|Hne]; cbn [option_map RepInv listeners data].
+      * rewrite lremove_in. intros [E _]. congruence.
+      * destruct r as [x|]; cbn [option_map RepInv listeners data] in *.
+        -- destruct Hr as [A B]. split; [apply lremove_in; split; [congruence|exact A]|exact B].
+        -- rewrite lremove_in. intros [_ E]. contradiction.
+  - destruct (step_sends f s o Hn Ho) as [L A].
+    assert (Hj : join_leave l o r = r) by (destruct o; try discriminate; reflexivity).
+    rewrite Hj. destruct r as [x|]; cbn [option_map RepInv] in *.
+    + destruct Hr as [B C]. split; [now rewrite L|]. subst x. apply (proj1 (A l) B).
+    + now rewrite L.
+Qed.
+
+Lemma replica_from f l ops : forall s r, NoDup (listeners s) -> RepInv l s r ->
+  RepInv l (run_from f s ops) (replica l r (trace_from f s ops)).
+Proof.
+  induction ops as [|o rest IH]; intros s r Hn Hr; cbn [run_from trace_from replica]; [exact Hr|].
+  pose proof (step_replica f l s r o Hn Hr) as H1. pose proof (step_nodup f s o Hn) as H2.
+  destruct (step f s o) as [s' [ret ms]]. cbn [fst snd] in *. cbn [replica]. now apply IH.
+Qed.
+
+(* replica_converges *)
+Theorem replica_converges f ops l : RepInv l (run f ops) (replica l None (trace_of f ops)).
+Proof. apply replica_from; [constructor|]. cbn. auto. Qed.
+
+(* a listener that is not joined is sent nothing *)
+Lemma step_outs_joined f s o l m : NoDup (listeners s) ->
+  In (l, m) (snd (snd (step f s o))) -> In l (listeners (fst (step f s o))).
+Proof.
+  intros Hn Hin. destruct (is_listener_op o) eqn:Ho.
+  - destruct o as [| | | |l'|l'| |]; try discriminate; cbn [step fst snd listeners] in *.
+    + destruct (data s); [contradiction|]. destruct Hin as [E|[]]. injection E as <- _. apply ladd_in. now left.
+    + contradiction.
+  - destruct (step_sends f s o Hn Ho) as [L A]. rewrite L.
+    destruct (in_dec N.eq_dec l (listeners s)) as [Hl|Hl]; [exact Hl|].
+    pose proof (proj2 (A l) Hl) as E. apply in_msgs_for in Hin. rewrite E in Hin. contradiction.
+Qed.
+
+(* unchanged_set_silent *)
+Theorem unchanged_set_silent f s k v ttl :
+  dget (data s) k = Some v ->
+  snd (step f s (OSet k (Some v) ttl)) = (false, []) /\
+  data (fst (step f s (OSet k (Some v) ttl))) = data s /\
+  listeners (fst (step f s (OSet k (Some v) ttl))) = listeners s.
+Proof.
+  intros H. cbn [step]. rewrite H, json_eqb_refl. cbn [fst snd].
+  destruct (set_ttl_same f true s k v ttl). auto.
+Qed.
+
+(* ================================== time-to-live: consequences of the refinement *)
+
+(* does the operation name the key (a request on it) *)
+Definition names (k : key) (o : op) : bool :=
+  match o with
+  | OSet k' _ _ | OCas k' _ _ _ | ORemove k' | OCasRemove k' _ => N.eqb k k'
+  | _ => false
+  end.
+(* the time that passes during a history *)
+Fixpoint elapsed (ops : list op) : Z :=
+  match ops with
+  | [] => 0
+  | OAdvance dt :: r => Z.max 0 dt + elapsed r
+  | _ :: r => elapsed r
+  end.
+Lemma elapsed_nonneg ops : 0 <= elapsed ops.
+Proof. induction ops as [|o r IH]; cbn [elapsed]; [lia|]. destruct o; lia. Qed.
+
+Definition op_time (o : op) : Z := match o with OAdvance dt => Z.max 0 dt | _ => 0 end.
+
+Lemma spec_step_other a o k : names k o = false ->
+  snow (spec_step a o) = snow a + op_time o /\
+  (expired a (snow a + op_time o) k = false ->
+   dget (sdata (spec_step a o)) k = dget (sdata a) k /\ sdl (spec_step a o) k = sdl a k).
+Proof.
+  intros Hn.
+  assert (Hput : forall k' v ttl, N.eqb k k' = false ->
+            dget (sdata (spec_put a k' v ttl)) k = dget (sdata a) k /\ sdl (spec_put a k' v ttl) k = sdl a k).
+  { intros k' v ttl E. apply N.eqb_neq in E. cbn [spec_put sdata sdl]. rewrite dget_dset_other, upd_other by auto. auto. }
+  assert (Hdel : forall k', N.eqb k k' = false ->
+            dget (sdata (spec_del a k')) k = dget (sdata a) k /\ sdl (spec_del a k') k = sdl a k).
+  { intros k' E. apply N.eqb_neq in E. cbn [spec_del sdata sdl]. rewrite dget_ddel_other, upd_other by auto. auto. }
+  destruct o as [k' [v|] ttl|k' old [v|] ttl|k'|k' old|l|l|dt|i]; cbn [names] in Hn; cbn [spec_step op_time];
+    try (split; [cbn; lia|intros _; auto]).
+  - destruct (opt_json_eqb (dget (sdata a) k') old); [split; [cbn; lia|intros _; auto]|split; [lia|auto]].
+  - destruct old as [o|]; [|split; [lia|auto]].
+    destruct (opt_json_eqb (dget (sdata a) k') (Some o)); [split; [cbn; lia|intros _; auto]|split; [lia|auto]].
+  - destruct old as [o|]; [|split; [lia|auto]].
+    destruct (opt_json_eqb (dget (sdata a) k') (Some o)); [split; [cbn; lia|intros _; auto]|split; [lia|auto]].
+  - destruct (Z.ltb_spec dt 0) as [Hneg|Hpos].
+    + split; [lia|auto].
+    + replace (Z.max 0 dt) with dt by lia. split; [reflexivity|]. intros He. cbn [sdata sdl].
+      rewrite (dget_filter (fun x => negb (expired a (snow a + dt) x))). rewrite He. auto.
+Qed.
+
+(* v is stored under k and d is its deadline (None: no time-to-live) *)
+Definition governed (a : spec) (k : key) (v : json) (d : option Z) : Prop :=
+  dget (sdata a) k = Some v /\ sdl a k = d.
+
+Lemma spec_run_other mid : forall a k v d,
+  governed a k v d -> forallb (fun o => negb (names k o)) mid = true ->
+  match d with Some dl => snow a + elapsed mid < dl | None => True end ->
+  governed (spec_run a mid) k v d /\ snow (spec_run a mid) = snow a + elapsed mid.
+Proof.
+  induction mid as [|o r IH]; intros a k v d Hg Hn Hd; cbn [spec_run]; [cbn [elapsed]; split; [exact Hg|lia]|].
+  cbn [forallb] in Hn. apply andb_true_iff in Hn as [Hn1 Hn2]. apply negb_true_iff in Hn1.
+  destruct (spec_step_other a o k Hn1) as [T K].
+  pose proof (elapsed_nonneg r) as Hr.
+  assert (El : elapsed (o :: r) = op_time o + elapsed r) by (destruct o; cbn [elapsed op_time]; lia).
+  assert (He : expired a (snow a + op_time o) k = false).
+  { destruct Hg as [_ G2]. unfold expired. rewrite G2. destruct d as [dl|]; [|reflexivity].
+    apply Z.leb_gt. rewrite El in Hd. lia. }
+  destruct (K He) as [K1 K2].
+  destruct (IH (spec_step a o) k v d) as [G' T'].
+  - destruct Hg as [G1 G2]. split; congruence.
+  - exact Hn2.
+  - destruct d as [dl|]; [|exact I]. rewrite T. rewrite El in Hd. lia.
+  - split; [exact G'|]. rewrite T', T, El. lia.
+Qed.
+
+Lemma cas_ret s k old v ttl :
+  fst (snd (step true s (OCas k old (Some v) ttl))) = opt_json_eqb (dget (data s) k) old.
+Proof.
+  cbn [step]. destruct old as [o|], (dget (data s) k) as [p|]; cbn [opt_json_eqb]; try reflexivity.
+  destruct (json_eqb p o); reflexivity.
+Qed.
+
+(* a request that stores v under k with the given ttl *)
+Definition stores (s : state) (o : op) (k : key) (v : json) (ttl : Z) : Prop :=
+  o = OSet k (Some v) ttl \/
+  exists old, o = OCas k old (Some v) ttl /\ fst (snd (step true s o)) = true.
+
+Lemma stores_governed s o k v ttl : Inv s -> stores s o k v ttl ->
+  governed (abs (fst (step true s o))) k v (if ttl <=? 0 then None else Some (now s + ttl)) /\
+  now (fst (step true s o)) = now s.
+Proof.
+  intros HI Hs. destruct (step_refines s o HI) as [_ (E1 & E2 & E3)].
+  assert (Hp : spec_step (abs s) o = spec_put (abs s) k v ttl).
+  { destruct Hs as [->|(old & -> & Hr)]; [reflexivity|]. rewrite cas_ret in Hr. cbn [spec_step abs sdata]. now rewrite Hr. }
+  rewrite Hp in E1, E2, E3. split; [split|].
+  - rewrite E1. cbn [spec_put sdata]. apply dget_dset_same.
+  - rewrite E2. cbn [spec_put sdl abs snow]. apply upd_same.
+  - exact E3.
+Qed.
+
+Lemma governed_run s mid k v d : Inv s ->
+  governed (abs s) k v d -> forallb (fun o => negb (names k o)) mid = true ->
+  match d with Some dl => now s + elapsed mid < dl | None => True end ->
+  governed (abs (run_from true s mid)) k v d /\ now (run_from true s mid) = now s + elapsed mid.
+Proof.
+  intros HI Hg Hn Hd.
+  destruct (spec_run_other mid (abs s) k v d Hg Hn Hd) as [[G1 G2] T].
+  destruct (run_refines mid s (abs s) HI (speq_refl _)) as (E1 & E2 & E3).
+  split; [split|]; [rewrite E1; exact G1|rewrite E2; exact G2|]. cbn [abs snow] in E3, T. congruence.
+Qed.
+
+(* ttl_honoured: a value stored with a time-to-live stays until the first Advance that
+   reaches its deadline and disappears there, with a remove notification to every
+   listener, unless a later request names the key *)
+Theorem ttl_honoured pre o k v ttl mid dt :
+  let s0 := run true pre in
+  0 < ttl -> stores s0 o k v ttl ->
+  forallb (fun x => negb (names k x)) mid = true ->
+  elapsed mid < ttl -> ttl <= elapsed mid + dt ->
+  let s2 := run_from true (fst (step true s0 o)) mid in
+  dget (data s2) k = Some v /\
+  dget (data (fst (step true s2 (OAdvance dt)))) k = None /\
+  forall l, In l (listeners s2) -> In (l, MRemove k v) (snd (snd (step true s2 (OAdvance dt)))).
+Proof.
+  intros s0 Httl Hs Hn He1 He2 s2.
+  assert (I0 : Inv s0) by apply inv_run.
+  destruct (stores_governed s0 o k v ttl I0 Hs) as [G1 T1].
+  destruct (Z.leb_spec ttl 0) as [|_]; [lia|].
+  assert (I1 : Inv (fst (step true s0 o))) by now apply step_refines.
+  destruct (governed_run _ mid k v _ I1 G1 Hn) as [[G2 G3] T2]; [rewrite T1; lia|].
+  fold s2 in G2, G3, T2. cbn [abs sdata sdl] in G2, G3.
+  split; [exact G2|].
+  assert (I2 : Inv s2) by (apply inv_run_from; exact I1).
+  pose proof (elapsed_nonneg mid) as Hm.
+  assert (Hdt : 0 <= dt) by lia.
+  destruct (advance_ok s2 dt I2 Hdt) as (s' & out & F & _ & _ & _ & Hchar).
+  cbn [step]. destruct (Z.ltb_spec dt 0) as [|_]; [lia|]. rewrite F. cbn [fst snd].
+  specialize (Hchar k). unfold expired in Hchar. cbn [abs sdl] in Hchar. rewrite G3 in Hchar.
+  destruct (Z.leb_spec (now s0 + ttl) (now s2 + dt)) as [_|Hgt]; [|rewrite T2, T1 in Hgt; lia].
+  destruct Hchar as (d & v' & _ & _ & X3 & X4 & _ & X6). cbn [data listeners] in X3, X6.
+  rewrite G2 in X3. injection X3 as <-. split; [exact X4|exact X6].
+Qed.
+
+(* ... and a value stored without time-to-live (or whose time-to-live was cleared by
+   the latest request) stays, whatever timers were armed before *)
+Theorem ttl_cleared_persists pre o k v ttl mid :
+  let s0 := run true pre in
+  ttl <= 0 -> stores s0 o k v ttl ->
+  forallb (fun x => negb (names k x)) mid = true ->
+  dget (data (run_from true (fst (step true s0 o)) mid)) k = Some v.
+Proof.
+  intros s0 Httl Hs Hn.
+  assert (I0 : Inv s0) by apply inv_run.
+  destruct (stores_governed s0 o k v ttl I0 Hs) as [G1 T1].
+  destruct (Z.leb_spec ttl 0) as [_|]; [|lia].
+  assert (I1 : Inv (fst (step true s0 o))) by now apply step_refines.
+  destruct (governed_run _ mid k v _ I1 G1 Hn I) as [[G2 _] _]. exact G2.
+Qed.
+
+(* fire_late_safe: the callback of a superseded timer changes nothing *)
+Theorem fire_late_safe ops i :
+  let s := run true ops in
+  let r := step true s (OFireLate i) in
+  snd r = (false, []) /\ data (fst r) = data s /\ listeners (fst r) = listeners s /\
+  tmap (fst r) = tmap s /\ (forall k, live_deadline (fst r) k = live_deadline s k) /\ now (fst r) = now s.
+Proof.
+  intros s r. assert (HI : Inv s) by apply inv_run. subst r. cbn [step].
+  destruct (nth_error (timers s) i) as [t|] eqn:Hi; [|cbn; auto 7].
+  destruct (t_state t) eqn:Hs; try (cbn; auto 7).
+  destruct (fire_stopped_ok s i t HI Hi Hs) as (F & _ & (_ & E2 & _)). rewrite F. cbn [fst snd data listeners tmap now].
+  repeat split; auto.
+Qed.
